@@ -13,7 +13,7 @@ import numpy
 MAG_CAP = 1.0e4
 
 UNARY = ('sin', 'cos', 'exp', 'tan', 'sqrt', 'log', 'reciprocal', 'square', 'negative',
-         'expm1', 'log1p', 'erf', 'expit', 'neg')
+         'expm1', 'log1p', 'erf', 'expit', 'neg', 'gammaln', 'psi', 'erfi', 'dawsn', 'logit', 'absolute')
 TUPLE_OPS = ('qr', 'qr_full', 'eigh', 'lu', 'svd')
 
 
@@ -53,7 +53,10 @@ class AlgopyBackend(object):
             'log': al.log, 'reciprocal': al.reciprocal, 'square': al.square,
             'negative': al.negative, 'expm1': al.expm1, 'log1p': al.log1p,
             'erf': al.special.erf, 'expit': al.special.expit, 'neg': lambda v: -v,
+            'gammaln': al.special.gammaln, 'psi': al.special.psi, 'erfi': al.special.erfi,
+            'dawsn': al.special.dawsn, 'logit': al.special.logit, 'absolute': al.absolute,
         }
+        self.spf = {'polygamma': al.special.polygamma, 'hyperu': al.special.hyperu}
         self.lin1 = {'inv': al.inv, 'det': al.det, 'logdet': al.logdet, 'trace': al.trace,
                      'cholesky': al.cholesky, 'qr': al.qr, 'qr_full': al.qr_full, 'eigh': al.eigh,
                      'lu': al.lu, 'svd': al.svd, 'diag': al.diag, 'prod': al.prod,
@@ -64,6 +67,9 @@ class AlgopyBackend(object):
 
     def unary(self, name, v):
         return self.un[name](v)
+
+    def special(self, name, params, v):
+        return self.spf[name](*(list(params) + [v]))
 
     def sum(self, v, axis):
         return self.al.sum(v, axis=axis)
@@ -134,6 +140,8 @@ def exec_instr(ins, regs, B):
         return A[0] ** A[1]
     if op == 'un':
         return B.unary(ins['f'], A[0])
+    if op == 'spf':
+        return B.special(ins['f'], ins['params'], A[0])
     if op == 'sum':
         return B.sum(A[0], ins['axis'])
     if op == 'dot':
@@ -658,7 +666,29 @@ class Gen(object):
         ra = self.regs[a]
         sh = ra.sh
         w = rng.choice(['sin', 'cos', 'expsin', 'tansin', 'sqrt', 'log', 'recip', 'powr', 'erf', 'expit',
-                        'expm1', 'log1p', 'tansin', 'divpos'])
+                        'expm1', 'log1p', 'tansin', 'divpos', 'sqrt', 'special', 'special'])
+        if w == 'special':
+            w = rng.choice(['erfi', 'dawsn', 'gammaln', 'psi', 'logit', 'polygamma', 'hyperu', 'absolute'])
+        if w in ('erfi', 'dawsn'):
+            s = self.emit('un', [a], sh, 1.0, f=rng.choice(['sin', 'cos']))
+            self.emit('un', [s], sh, 2.0, f=w)
+            return True
+        if w == 'logit':
+            s = self.emit('un', [a], sh, 1.0, f=rng.choice(['sin', 'cos']))
+            m = self.emit('mul', [s, {'c': 0.25}], sh, 0.25)
+            u = self.emit('add', [m, {'c': 0.5}], sh, 0.75, pos=(0.25, 0.75))
+            self.emit('un', [u], sh, 1.2, f='logit')
+            return True
+        if w in ('gammaln', 'psi', 'polygamma', 'hyperu', 'absolute'):
+            s = self.emit('un', [a], sh, 1.0, f=rng.choice(['sin', 'cos']))
+            pz = self.emit('add', [s, {'c': 1.5}], sh, 2.5, pos=(0.5, 2.5))
+            if w in ('gammaln', 'psi', 'absolute'):
+                self.emit('un', [pz], sh, 3.0, f=w)
+            elif w == 'polygamma':
+                self.emit('spf', [pz], sh, 10.0, f='polygamma', params=[1])
+            else:
+                self.emit('spf', [pz], sh, 5.0, f='hyperu', params=[0.5, 1.5])
+            return True
         if w in ('sin', 'cos'):
             self.emit('un', [a], sh, 1.0, f=w)
             return True
@@ -1156,7 +1186,7 @@ def features(prog):
     writes = {}
     for j, ins in enumerate(prog['instrs']):
         op = ins['op']
-        if op in ('un', 'lin1'):
+        if op in ('un', 'lin1', 'spf'):
             f.add(ins['f'])
         elif op == 'try':
             f.add('try_' + ins['what'])
